@@ -290,6 +290,11 @@ func (s *BaseNodeService) executeOperation(operation *types.Operation) error {
 		}
 	} else {
 		//for now only ReinitDKG can have the OperationProcessed event
+		if fsm.State(storedOperation.Type) != types.ReinitDKG {
+			return fmt.Errorf("%s event in the result of a %s operation", operation.Event, storedOperation.Type)
+		}
+		// (the round is the stored operation's: Equal does not compare it)
+		operation.DKGIdentifier = storedOperation.DKGIdentifier
 		dkgID := operation.DKGIdentifier
 		fsm, err := s.fsmService.GetFSMInstance(string(dkgID), false)
 		if err != nil {
